@@ -326,3 +326,75 @@ theorem encRuns_length (k : Nat) (fs : List (Option Frame))
   omega
 
 end Tdf
+
+namespace Tdf
+variable {α : Type}
+
+/-- value stored for frame `j` by a segment table: the first run that covers `j` -/
+def lookupRuns (rs : List (Nat × List α)) (j : Nat) : Option α :=
+  rs.findSome? (fun r => if r.1 ≤ j then r.2[j - r.1]? else none)
+
+/-- the runs cover exactly the present frames, and carry their values -/
+theorem lookup_runsFrom (fs : List (Option α)) (i j : Nat) :
+    lookupRuns (runsFrom i fs) j = if i ≤ j then (fs[j - i]?).join else none := by
+  induction fs generalizing i with
+  | nil => simp [runsFrom, lookupRuns]
+  | cons f fs ih =>
+    have ih' := ih (i+1)
+    cases f with
+    | none =>
+      simp only [runsFrom]
+      rw [ih']
+      by_cases h1 : i + 1 ≤ j
+      · have : i ≤ j := by omega
+        have e : j - i = (j - (i+1)) + 1 := by omega
+        simp [h1, this, e]
+      · by_cases h2 : i ≤ j
+        · have : j - i = 0 := by omega
+          simp [h1, h2, this]
+        · simp [h1, h2]
+    | some a =>
+      simp only [runsFrom]
+      split
+      · rename_i s as rest heq
+        rw [heq] at ih'
+        split
+        · rename_i hs; subst hs
+          simp only [lookupRuns, List.findSome?_cons] at ih' ⊢
+          by_cases h2 : i ≤ j
+          · by_cases h1 : i + 1 ≤ j
+            · have e : j - i = (j - (i+1)) + 1 := by omega
+              simp only [h1, h2, if_true] at ih' ⊢
+              rw [e]; simpa using ih'
+            · have : j - i = 0 := by omega
+              simp [h2, this]
+          · have h1 : ¬ i + 1 ≤ j := by omega
+            simpa [h1, h2] using ih'
+        · simp only [lookupRuns, List.findSome?_cons] at ih' ⊢
+          by_cases h2 : i ≤ j
+          · by_cases h1 : i + 1 ≤ j
+            · have e : j - i = (j - (i+1)) + 1 := by omega
+              simp only [h1, h2, if_true] at ih' ⊢
+              rw [e]; simpa using ih'
+            · have : j - i = 0 := by omega
+              simp [h2, this]
+          · have h1 : ¬ i + 1 ≤ j := by omega
+            simpa [h1, h2] using ih'
+      · rename_i heq
+        rw [heq] at ih'
+        simp only [lookupRuns, List.findSome?_cons, List.findSome?_nil] at ih' ⊢
+        by_cases h2 : i ≤ j
+        · by_cases h1 : i + 1 ≤ j
+          · have e : j - i = (j - (i+1)) + 1 := by omega
+            simp only [h1, h2, if_true] at ih' ⊢
+            rw [e]; simpa using ih'
+          · have : j - i = 0 := by omega
+            simp [h2, this]
+        · simp [h2]
+
+theorem lookup_runs (fs : List (Option α)) (j : Nat) :
+    lookupRuns (runs fs) j = (fs[j]?).join := by
+  have := lookup_runsFrom fs 0 j
+  simpa [runs] using this
+
+end Tdf
